@@ -185,6 +185,7 @@ func ruleC02(w *World, r *Report) {
 	r.Explanation = "R02.1 over the dispatch switch of HandlePFCPMsg (path enumeration): every *Request case calls one handler and sends at most the handler's own reply, once; every *Response case and the default send nothing; every non-nil reply a handler can return (followed through its reply closures) is built by the constructor paired by name with the request type, with the request's own sequence number; nil replies only on a failed type assertion or a failed accessor of a request IE; " +
 		"R02.2 who-may-send: SendPFCPMsg is called only by the dispatcher tail, the request sender and the report sender, Conn.Write only by SendPFCPMsg, no handler reaches a send synchronously; R02.3 SEID argument provenance of the three session responses (accepted ⇒ the session's remote SEID / the request's CP F-SEID, unknown session ⇒ 0 with no prior store to the captured variable); " +
 		"R02.4 the accepted establishment carries the local Node ID IE, an accepted cause, an F-SEID built from session.localSEID and the connection's local address, and addPdrInfo on every path, whose two guards mirror the two allocation flags; R02.5 the UP SEID is compared with 0 before it is used."
+	r.Explanation += " R02.6 the association's reader goroutine ends only on a read time-out or a closed socket (shared with C01 R01.6); R02.7 the datagram is marshalled into and written from a buffer that belongs to the call (SendPFCPMsg runs on several goroutines of one association)."
 	r.NotDecided = "counting responses over whole histories; header field encoding (go-pfcp)"
 	dispatch := w.Fn(P, "pfcpiface.(*PFCPConn).HandlePFCPMsg")
 	send := w.Fn(P, "pfcpiface.(*PFCPConn).SendPFCPMsg")
@@ -404,6 +405,13 @@ func ruleC02(w *World, r *Report) {
 				}
 				if isWrite {
 					r.check(f == send, "R02.2", w.FuncName(f), "PFCP socket write only in SendPFCPMsg", w.Pos(i.Pos()), "in SendPFCPMsg", w.FuncName(f)+" writes to the PFCP socket directly")
+					// R02.7: SendPFCPMsg runs on several goroutines of one association (reader, heartbeat monitor,
+					// node) without a lock: the bytes between MarshalTo and Write must belong to this call alone
+					if len(cc.Args) > 0 {
+						buf := cc.Args[len(cc.Args)-1]
+						held := w.Locks().heldAt[i]
+						r.check(isFreshSlice(buf) || len(held) > 0, "R02.7", w.FuncName(f), "the datagram is written from a buffer private to this call", w.Pos(i.Pos()), "buffer allocated in the call"+ifelse(len(held) > 0, " / under a lock", ""), "the datagram is marshalled into and written from "+symOf(buf).String()+", which other goroutines sending on the same association share: one message overwrites another between MarshalTo and Write (a response is sent twice, another never)")
+					}
 				}
 			})
 		}
@@ -412,6 +420,8 @@ func ruleC02(w *World, r *Report) {
 	ruleC02SEID(w, r, handlers, acceptedConst)
 	ruleC02Accepted(w, r, handlers, acceptedConst)
 	ruleC02NonZero(w, r)
+	// R02.6: a request can only be answered while somebody reads the socket: the reader goroutine ends only with the association
+	r.withRule("R02.6", func() { ruleC01Reader(w, r) })
 }
 
 func constIntOK(v ssa.Value) (int64, bool) { return constInt(v) }
